@@ -38,6 +38,11 @@ type NetEvent struct {
 	Faults        []string `json:"faults,omitempty"`
 	BodyHash      string   `json:"body"`
 	Session       string   `json:"-"` // label given by the client link
+	// EffFrom/EffTo delimit the effect-journal entries written while the target
+	// node handled this request (request events only).
+	EffFrom, EffTo int  `json:"-"`
+	Adversary      bool `json:"adv,omitempty"`
+	ReqSeq         int  `json:"req_seq,omitempty"` // response events: Seq of their request
 }
 
 // Fault marks the event as altered by a fault of the given kind.
@@ -64,7 +69,8 @@ type Net struct {
 	hooks []Hook
 	// NoLog disables the shared recorder (race builds: a shared log would add
 	// happens-before edges between sessions).
-	NoLog bool
+	Journal *Journal
+	NoLog   bool
 	// MaxMsgs bounds the number of requests of a run (0 = 4000). Beyond it the
 	// network stops delivering, so that a run that would otherwise exchange up
 	// to the library's 1e6 service-info rounds ends quickly.
@@ -100,6 +106,21 @@ func (n *Net) record(ev *NetEvent) {
 	c := *ev
 	c.Body = append([]byte(nil), ev.Body...)
 	n.Log = append(n.Log, &c)
+}
+
+// setEff copies the effect window of a handled request into its log record.
+func (n *Net) setEff(ev *NetEvent) {
+	if n.NoLog {
+		return
+	}
+	n.mu.Lock()
+	defer n.mu.Unlock()
+	for i := len(n.Log) - 1; i >= 0; i-- {
+		if n.Log[i].Seq == ev.Seq && n.Log[i].Phase == "req" {
+			n.Log[i].EffFrom, n.Log[i].EffTo = ev.EffFrom, ev.EffTo
+			return
+		}
+	}
 }
 
 func (n *Net) addPanic(p PanicRecord) {
@@ -174,7 +195,10 @@ func (n *Net) Deliver(ev *NetEvent) (*http.Response, error) {
 	if ev.Dup {
 		_ = node.Serve(n, ev)
 	}
+	ev.EffFrom = n.Journal.Len()
 	rr := node.Serve(n, ev)
+	ev.EffTo = n.Journal.Len()
+	n.setEff(ev)
 	res := rr.Result()
 	rbody, _ := io.ReadAll(res.Body)
 	rt := -1
@@ -182,7 +206,8 @@ func (n *Net) Deliver(ev *NetEvent) (*http.Response, error) {
 		rt = v
 	}
 	rev := &NetEvent{From: ev.To, To: ev.From, Phase: "resp", MsgType: ev.MsgType, RespType: rt, Status: res.StatusCode,
-		Token: res.Header.Get("Authorization"), Body: rbody, OrigBody: rbody, ContentType: res.Header.Get("Content-Type"), Session: ev.Session}
+		Token: res.Header.Get("Authorization"), Body: rbody, OrigBody: rbody, ContentType: res.Header.Get("Content-Type"), Session: ev.Session,
+		Adversary: ev.Adversary, ReqSeq: ev.Seq}
 	n.K.Yield("net.resp")
 	for _, h := range n.hooks {
 		h(rev)
